@@ -790,7 +790,10 @@ def run(rep):
     tier, rng = rep.tier, Rng(rep.seed)
     cov = rep.cov
     broken = []
-    po = common.proof_obligations(PROP_FILES)
+    # translator: PoolWatch insert/remove, the four handshake decisions and the admission glue are regenerated from the source; Properties/C12Gen.v proves them equal to Model/Pool.v, Model/Handshake.v
+    import rust2coq
+    translator, gen_files = rust2coq.step(["pool", "handshake_gossip", "handshake_consensus", "admission"], ["theories/Properties/C12Gen.v"], broken)
+    po = common.proof_obligations(PROP_FILES + gen_files)
     if not po["ok"]:
         broken.append("Coq obligations of Properties/C12.v: " + (po["log_tail"] or str(po["hygiene_problems"] or po["bad_axioms"])))
     ok, out = common.cargo_build([BIN], "dev")
@@ -981,7 +984,7 @@ def run(rep):
             "H-ATOM: PoolWatch::insert / remove closures run atomically under the watch lock",
             "admission glue of both directions is EXECUTED (real Network::new; verif::Glue::{gossip,consensus}_run_{inbound,outbound}_stream and consensus_maintain_connection on real sessions, the harness being dialled through the real preface) and diffed with Model.Pool.run_node_case; not executed: the gossip reconnect loop inside Runner::run (a `loop { run_outbound_stream; sleep }`) and the listener's accept loop",
         ]),
-        "theorems": po["theorems"], "axioms": po["axioms"],
+        "theorems": po["theorems"], "axioms": po["axioms"], "translator": translator,
         "evaluations": evals + conc_ops + glue_events,
         "distinct_nontrivial": len(dist_hs) + len(dist_pool) + len(dist_glue),
         "rule": "handshake: scripts of 1-5 concurrent sessions on real noise-over-TCP, each with a victim running the real inbound/outbound function of the gossip or validator network and the harness as adversary delivering one message per session in a random order (valid / replayed verbatim from another session / replayed with the id field rewritten / re-signed / reflected / signed by another key / signature for another id / garbage signature / other, truncated, extended, empty session id / other chain / unexpected peer / malformed or closed / free mix), plus honest pairs; non-trivial+distinct = distinct (victim config, delivered message as decoded from the real objects, session) that reached the decision code, plus distinct honest pairs. pool: 1-40 inserts/removes on 1-8 keys, limits {0,1,2,3,5,2^32,usize::MAX}; distinct = (allowed, limit, contents before, op). poolc: 4-16 concurrent connection lifecycles on a 2-5 worker runtime, predicates only. glue: a real node (public Network::new, in-memory engine; gossip: key / static_inbound / dynamic_inbound_limit 0-3 / static_outbound; validator: committee of 1-8 keys) driven by 3-14 events in both directions: inbound connects through run_inbound_stream (configured / non-configured / duplicate identity / over quota / also connected outbound / replayed / forged / malformed), outbound dials through the node's own run_outbound_stream into the harness's listener with the other end (a) presenting the expected key, (b) another valid key, (c) a replayed or reflected handshake or a signature for another connection, (d) dropping mid-handshake or before the preface ends, (e) two concurrent dials of one peer, (f) the peer being connected inbound meanwhile, non-configured peers, the validator maintain_connection loop for 1-3 rounds, and disconnects; after every event: the node's own handshake as sent, live?, inbound and outbound pool compared with Model.Pool.run_node_case (handshake decision + gstep per direction); distinct = (net, config, both pools before, event, peer, delivered message, live)",
